@@ -54,6 +54,8 @@ Print Assumptions C16_construction_determined.
 Theorem C16_described_classes_self_contained : DescribedClasses_stmt.  Proof. exact described_classes_self_contained. Qed.
 Print Assumptions C16_described_classes_self_contained.
 
+(* REPRESENTATIONAL: the state gives every slot its own member map, so this holds by construction of the machine; aliasing through shared
+   heap is outside this machine (Refcount.v models the counting protocol only).  It states that no EVENT of the model reaches another slot. *)
 Theorem C16_frame : forall val param arg res d pinit cinit dflt ctor_stat junk run eff_own eff_stat,
   Frame_stmt val param arg res d pinit cinit dflt ctor_stat junk run eff_own eff_stat.
 Proof. exact frame. Qed.
@@ -109,8 +111,14 @@ Theorem C18_shared_write_refuted : SharedWrite_refuted_stmt.           Proof. ex
 Print Assumptions C18_shared_write_refuted.
 
 (* the decisions on the description of the current source *)
+(* offender lists of every class EXCEPT those in Decide.sc_exceptions (listed there with the reason) *)
 Theorem C16_decided_self_contained : Decide_sc_stmt.                   Proof. exact decide_sc. Qed.
 Print Assumptions C16_decided_self_contained.
+Theorem C16_decided_no_verdict_classes : Decide_sc_excepted_stmt.      Proof. exact decide_sc_excepted. Qed.
+Print Assumptions C16_decided_no_verdict_classes.
+(* how many accepted methods per class actually read a member / have an effect (the rest is stateless) *)
+Theorem C16_decided_stateful_methods : Decide_stateful_stmt.           Proof. exact decide_stateful. Qed.
+Print Assumptions C16_decided_stateful_methods.
 Theorem C16_decided_mutators : Decide_mut_stmt.                        Proof. exact decide_mut. Qed.
 Print Assumptions C16_decided_mutators.
 Theorem C16_decided_refcount : Decide_rc_stmt.                         Proof. exact decide_rc. Qed.
